@@ -288,11 +288,26 @@ class ProvXMLSerializer(Serializer):
                 )
                 attributes.append((PROV["type"], value))
 
+            # A membership listing several entities stands for one membership
+            # per entity (the PROV-JSON reader expands it in the same way);
+            # every other writer prints a single value per PROV attribute.
+            extra_members = []
+            if rec_type == PROV_MEMBERSHIP:
+                members = [v for k, v in attributes if k == PROV_ATTR_ENTITY]
+                if len(members) > 1:
+                    extra_members = members[1:]
+                    attributes = [
+                        (k, v) for k, v in attributes if k != PROV_ATTR_ENTITY
+                    ] + [(PROV_ATTR_ENTITY, members[0])]
+
             rec = bundle.new_record(rec_type, rec_id, attributes)
 
             # Add the actual type in case a base type has been used.
             if rec_type != q_prov_name:
                 rec.add_asserted_type(q_prov_name)
+
+            for member in extra_members:
+                bundle.membership(dict(attributes).get(PROV_ATTR_COLLECTION), member)
         return bundle
 
     def _derive_record_label(self, rec_type, attributes):
